@@ -76,6 +76,10 @@ CLAIMED = {
             'exploration: held on ~2x10^5 concurrent calls per quick run (up to 32 simultaneously open calls observed) over 30 worlds and 36 gwb-grid runs; ThreadSanitizer generalises the observed interleavings by happens-before',
             'only interleavings that happened (plus TSan\'s happens-before closure) are covered; at most 32 threads and -j 40; worlds with random models are excluded by the property',
             'DESIGN.md section 4, C14'),
+    'C15': ('runtime monitoring: history + executable model - five instances of a random-model world (twin, other seed, seed entry) driven by the same interleaved history in one process, bit comparison call by call; invariant monitors on every returned grain set (proper rotation, size rules) and random composition (bounds), on the ASan+UBSan build',
+            'exploration: held on ~6x10^3 interleaved calls per quick run over 120 single-feature worlds of every feature type offering a random model (1-200 grains, deflected and plain distributions, both coordinate systems)',
+            'statistical uniformity is not a property and not tested; seeds congruent modulo 2^32 are the same mt19937 seed and are not required to differ',
+            'DESIGN.md section 4, C15'),
 }
 
 PENDING_REASON = 'check not built yet (work in progress; see DESIGN.md section 9)'
